@@ -215,6 +215,38 @@ def boundary_points(box, rng, ints=(), cap=48):
     return pts
 
 
+def guard_points(t, box, rng, ints=(), funcs=None, budget=400, per_guard=3):
+    """points of the box on BOTH sides of every guard occurring in t (the two arguments of a min / max, the condition of an
+    ite): a clamp or a special case that bites only in a small interior region is invisible to uniform sampling of the
+    value, but its guard changes sign there.  Float evaluation only; used to seed the exact numeric pass."""
+    guards = []
+    for nd in tm.postorder(t):
+        if nd.op in ("max", "min") and len(nd.args) == 2:
+            guards.append(tm.sub(tm.toreal(nd.args[0]), tm.toreal(nd.args[1])))
+        elif nd.op == "ite":
+            c = nd.args[0]
+            c = c.args[0] if c.op == "not" else c
+            if c.op in ("<", "<=", "==") and len(c.args) == 2:
+                guards.append(tm.sub(tm.toreal(c.args[0]), tm.toreal(c.args[1])))
+    guards = guards[:6]
+    if not guards:
+        return []
+    pts = [sample_point(box, rng, ints) for _ in range(budget)]
+    out = []
+    for g in guards:
+        pos, neg = [], []
+        for pt in pts:
+            try:
+                v = tm.feval(g, pt, funcs)
+            except Exception:  # noqa: BLE001
+                continue
+            (pos if v > 0 else neg).append(pt)
+        # only the rarer side is interesting (the common side is found by plain sampling anyway)
+        rare = pos if len(pos) < len(neg) else neg
+        out += rare[:per_guard]
+    return out
+
+
 def mp_eval(t, point, funcs=None, dps=50):
     import mpmath
 
@@ -283,7 +315,7 @@ def prove_equal_cas(lhs, rhs, box, hyp=None, positive=None, seed=0, npoints=12, 
     tol = mpmath.mpf(rel_tol)
     evaluated = 0
     tries = 0
-    edge = boundary_points(box, random.Random(seed + 1), ints)
+    edge = boundary_points(box, random.Random(seed + 1), ints) + guard_points(tm.sub(lhs, rhs), box, random.Random(seed + 2), ints, funcs)
     while (evaluated < npoints and tries < npoints * 40) or edge:
         if edge:
             pt = edge.pop()
